@@ -441,6 +441,12 @@ func c06Values(req c06Req, resp *drv.Response, rng *rand.Rand) error {
 			_, err = runGadget(cfg, Gadget{Kind: v.Kind, Bits: v.Bits}, []*big.Int{x}, p)
 			out = hc.Outcome(err)
 			if v.Strat != "honest" && v.Strat != "" && v.Strat != "nonbool" && cfg.Counters["subst"] == 0 && v.Kind == "rangecheck" {
+				if cfg.Counters["hint:SplitLimbsHint"] == 0 {
+					// this configuration of the code takes no limbs from the prover: the limb strategies have nothing to play against;
+					// the honest and the digit strategies decide the value
+					resp.Count(v.key(), true)
+					continue
+				}
 				return fmt.Errorf("strategy %s never applied (dead driver)", v.Strat)
 			}
 		} else {
